@@ -5,6 +5,7 @@ from ..lib import facts, mir, paths, src as S, shapes
 from ..lib.mir import is_call, unref, path_str
 from . import common_derive as cd, common_identity as ci, c04, c17
 
+EXHAUSTIVE = False  # contains a finite corpus of programs (witnesses / declarations)
 LEVEL = "other"
 EXPLANATION = (
     "Claimed for its structural clause only: scale-info-derive and the locked parity-scale-codec-derive interpret a declaration "
